@@ -100,6 +100,23 @@ def chunk_part(ctx, tmp):
             trs.append({"tid": "%s-%d" % (alg, n), "size": n, "chunk": chunk, "events": log})
             ctx.evaluations += 1
             ctx.distinct.add("digest-%s-%d" % (alg, n))
+    # the same path hashed again after its content changed (no stale digest), and a second algorithm on the same path
+    import productmd.treeinfo as TI
+    p = os.path.join(tmp, "changing")
+    for content in (b"first content", b"second, longer content " * 1000, b""):
+        with open(p, "wb") as fh:
+            fh.write(content)
+        for alg in ("sha256", "md5", "sha256"):
+            got = TI.compute_checksum(p, alg)
+            if got != hashlib.new(alg, content).hexdigest():
+                ctx.fail({"content_len": len(content), "alg": alg}, "compute_checksum of a file whose content changed between calls returns %s "
+                         "(stale), standard %s digest of the current %d bytes differs" % (got, alg, len(content)), "digest")
+        t = samples.treeinfo(0)
+        t.checksums.add("changing", "sha256", root_dir=tmp)
+        t.checksums.add("./changing", "md5", root_dir=tmp)       # same normalised path added again with another type: last wins
+        if tuple(t.checksums.checksums.get("changing", ())) != ("md5", hashlib.md5(content).hexdigest()):
+            ctx.fail({"content_len": len(content)}, "Checksums.add twice for one normalised path: recorded %r" % (t.checksums.checksums,), "digest")
+        ctx.evaluations += 4
     verdicts = T.validate_batch(ctx, "Trace_Chunked", "Trace_Chunked.cfg", trs)
     inv = verdicts.pop("__invariant__", None)
     if inv:
